@@ -10,7 +10,7 @@
    tail of which only the event class is known. *)
 From AB Require Import World.Step Base.TextProofs Proofs.EvLogic Proofs.Neutral Proofs.HandlerEvents Proofs.ServeEvents
   Proofs.StepUid Proofs.MonadInv Proofs.StoreLogic Proofs.Gate Proofs.Misc Proofs.LogoutProofs Proofs.ExpireProofs
-  Proofs.StepGuard.
+  Proofs.StepGuard Proofs.OneTimeProofs.
 Open Scope Z_scope.
 
 (* ---- what would be flushed: the snapshot of the first write, else everything so far -------- *)
@@ -918,6 +918,11 @@ Proof. intros R. unfold serve, route_table. rewrite R. reflexivity. Qed.
 Lemma error_handler_ok E (hd : M unit) h h' : hd h = (Ok tt, h') -> with_error_handler E hd h = (Ok tt, h').
 Proof. intros Eq. unfold with_error_handler, try. rewrite Eq. reflexivity. Qed.
 
+Lemma bind_ok {A B} (m : M A) (f : A -> M B) h a h1 : m h = (Ok a, h1) -> bind m f h = f a h1.
+Proof. intros Eq. unfold bind. rewrite Eq. reflexivity. Qed.
+Lemma try_congr {A B} (m m' : M A) (K : res A -> M B) h h1 : m h = m' h1 -> try m K h = try m' K h1.
+Proof. intros Eq. unfold try. rewrite Eq. reflexivity. Qed.
+
 Section XS.
 Variable C : crypto.
 Variable cfg : config.
@@ -964,4 +969,282 @@ Proof.
     split; [right; unfold obs_of; cbn [ob_resp]; rewrite O2; auto|].
     subst j'. rewrite Js, Jc. auto.
 Qed.
+
+(* the expire middleware in front, the session older than ExpireAfter, the user id not
+   whitelisted, and no remember cookie to log the browser back in *)
+Lemma step_expired_lemma w req O full tf fr l c r :
+  q_route req = RApp full tf fr l c r true ->
+  let b := q_browser req in
+  let j := jar_get b (w_sess w) in
+  let E := mkEnv C cfg O req (jar_get b (w_cook w)) j in
+  ahas k_uid j = true -> stamp_expired cfg (o_now O) j = true ->
+  bmem k_uid (c_whitelist cfg) = false ->
+  (r = false \/ alookup k_rm (jar_get b (w_cook w)) = None) ->
+  let w' := fst (step C cfg w (AReq req) O) in
+  let o := snd (step C cfg w (AReq req) O) in
+  let W := bsplit ","%byte (bjoin ","%byte (c_whitelist cfg)) in
+  let j' := jar_get b (w_sess w') in
+  w_st w' = w_st w /\ ob_err o = false /\ ob_panic o = false /\
+  (ob_resp o = Some (refusal_response E false fr) \/
+   (ob_resp o = None /\ fr = RespRedirect /\ c_api cfg = true /\ exists n ek, fault_at n (o_faults O) = Some ek)) /\
+  (ob_resp o <> None ->
+     j' = apply_events j ([DelAll (bjoin ","%byte (c_whitelist cfg)); Del k_uid; Del k_last_action] ++ refusal_sev E fr) /\
+     (forall k, ahas k j' = true -> (bmem k W = true /\ k <> k_uid /\ k <> k_last_action) \/ k = k_flash_err) /\
+     (forall k, bmem k W = true -> k <> k_uid -> k <> k_last_action -> k <> k_flash_err ->
+        alookup k j' = alookup k j) /\
+     alookup k_uid j' = None /\ alookup k_last_action j' = None /\
+     jar_get b (w_cook w') = jar_get b (w_cook w)) /\
+  (ob_resp o = None -> w_sess w' = w_sess w /\ w_cook w' = w_cook w).
+Proof.
+  intros R b j E Hu Hx Hwl Hr w' o W j'.
+  set (h0 := init_hst (w_st w) O).
+  set (h1 := h0 <| h_sev := h_sev h0 ++ expire_sev E |>).
+  assert (Hb : bempty (aget k_uid (expired_view E)) = true).
+  { unfold aget, expired_view. cbn [e_cfg e_sess E].
+    rewrite (proj1 (expired_view_hides_lemma (c_whitelist cfg) j) _ Hwl). reflexivity. }
+  destruct (stack_tail_refuses E full tf fr l c r (expired_view E) h1 eq_refl eq_refl eq_refl Hb Hr)
+    as (h' & T & A1 & A2 & A3 & A4).
+  assert (Es : serve E h0 = (Ok tt, h')).
+  { rewrite (serve_app E _ _ _ _ _ _ _ R). apply error_handler_ok. rewrite app_stack_cut.
+    unfold bind at 1. rewrite (expire_mw_expired_eq E h0 Hu Hx). exact T. }
+  destruct (step_shape C cfg w req O _ _ Es) as (Ob & St & Jr). fold b in Jr. fold w' in St, Jr. fold o in Ob.
+  split; [rewrite St; exact A1|]. rewrite Ob. split; [reflexivity|]. split; [reflexivity|].
+  assert (S1 : h_sev h1 = [DelAll (bjoin ","%byte (c_whitelist cfg)); Del k_uid; Del k_last_action]) by reflexivity.
+  assert (C1 : h_cev h1 = []) by reflexivity.
+  destruct A4 as [(S2 & O2)|(F1 & F2 & S2 & O2 & F3)].
+  - rewrite O2 in Jr. cbn [w_sev w_cev] in Jr. destruct Jr as (Js & Jc). rewrite S1 in Js. rewrite C1 in Jc.
+    split; [left; unfold obs_of; cbn [ob_resp]; rewrite O2; reflexivity|].
+    split; [|intros Hn; unfold obs_of in Hn; cbn [ob_resp] in Hn; rewrite O2 in Hn; discriminate Hn].
+    intros _. subst j'. rewrite Js. fold j. split; [reflexivity|].
+    destruct (expire_jar_lemma j (c_whitelist cfg) (refusal_sev E fr) (refusal_sev_cases E fr)) as (J1 & J2 & J3 & J4).
+    cbv zeta in J1, J2, J3, J4. fold W in J1, J2. auto 6.
+  - rewrite O2 in Jr. destruct Jr as (Js & Jc).
+    split; [right; unfold obs_of; cbn [ob_resp]; rewrite O2; auto|].
+    split; [|auto]. intros Hn. exfalso. apply Hn. unfold obs_of. cbn [ob_resp]. rewrite O2. reflexivity.
+Qed.
+
+(* the expire middleware in front, a session that names a user and is younger than ExpireAfter *)
+Lemma step_fresh_lemma w req O full tf fr l c r :
+  q_route req = RApp full tf fr l c r true ->
+  let b := q_browser req in
+  let j := jar_get b (w_sess w) in
+  bempty (aget k_uid j) = false -> stamp_expired cfg (o_now O) j = false ->
+  let w' := fst (step C cfg w (AReq req) O) in
+  let o := snd (step C cfg w (AReq req) O) in
+  let j' := jar_get b (w_sess w') in
+  (ob_resp o <> None ->
+     alookup k_last_action j' = Some (zdec (o_now O)) /\
+     alookup k_uid j' = alookup k_uid j /\
+     (forall k, k <> k_last_action -> k <> k_flash_err -> alookup k j' = alookup k j) /\
+     (exists n, j' = apply_events j (Put k_last_action (zdec (o_now O)) :: repeat (Put k_flash_err v_flash) n)) /\
+     jar_get b (w_cook w') = jar_get b (w_cook w)) /\
+  (ob_resp o = None -> w_sess w' = w_sess w /\ w_cook w' = w_cook w).
+Proof.
+  intros R b j Hb Hx w' o j'.
+  set (E := mkEnv C cfg O req (jar_get b (w_cook w)) j).
+  set (h0 := init_hst (w_st w) O).
+  set (h1 := h0 <| h_sev := h_sev h0 ++ [Put k_last_action (zdec (o_now O))] |>).
+  assert (Hu : ahas k_uid j = true).
+  { unfold ahas. unfold aget in Hb. destruct (alookup k_uid j); [reflexivity|discriminate Hb]. }
+  destruct (serve E h0) as [x h'] eqn:Es.
+  destruct (step_shape C cfg w req O _ _ Es) as (Ob & St & Jr). fold b in Jr. fold w' in St, Jr. fold o in Ob.
+  rewrite Ob.
+  split; [|intros Hn; apply obs_resp_none in Hn; rewrite Hn in Jr; exact Jr].
+  intros Hs. destruct (h_out h') as [wr|] eqn:Ho; [|exfalso; apply Hs; apply obs_resp_none; exact Ho].
+  (* the request = expire (known exactly), then a tail of the flash-only class *)
+  rewrite (serve_app E _ _ _ _ _ _ _ R) in Es.
+  assert (Tl : exists m : M unit, snap_all flash_err_only no_ev m /\ m h1 = (x, h')).
+  { exists (with_error_handler E (stack_core (with_sess E j) full tf fr l c)).
+    split; [apply snap_error_handler, snap_stack_core|].
+    rewrite <- Es. unfold with_error_handler. apply try_congr. symmetry. rewrite app_stack_cut.
+    rewrite (bind_ok _ _ _ _ _ (expire_mw_alive_eq E h0 Hu Hx)). fold h1. unfold stack_tail.
+    assert (Rm : (if r then remember_mw (with_sess E j) else ret tt) h1 = (Ok tt, h1)).
+    { destruct r; [|reflexivity]. apply remember_mw_hasid; [reflexivity|exact Hb]. }
+    rewrite (bind_ok _ _ _ _ _ Rm). reflexivity. }
+  destruct Tl as (m & Sm & Em).
+  destruct (snap_from _ _ m h1 x h' Sm eq_refl Em wr Ho) as (ls & lc & S1 & C1 & F & G).
+  destruct Jr as (Js & Jc). rewrite S1 in Js. rewrite C1 in Jc.
+  change (h_sev h1) with ([] ++ [Put k_last_action (zdec (o_now O))]) in Js. cbn [app] in Js.
+  change (h_cev h1) with (@nil csevent) in Jc. cbn [app] in Jc.
+  rewrite (apply_events_none lc _ G) in Jc.
+  assert (Jk : forall k, k <> k_flash_err -> alookup k j' = alookup k (aput k_last_action (zdec (o_now O)) j)).
+  { intros k N. subst j'. rewrite Js. fold j.
+    change (Put k_last_action (zdec (o_now O)) :: ls) with ([Put k_last_action (zdec (o_now O))] ++ ls).
+    rewrite apply_events_app. rewrite (apply_events_flash_only ls _ k F N). reflexivity. }
+  split; [rewrite Jk by neq_const; apply alookup_aput_eq|].
+  split; [rewrite Jk by neq_const; apply alookup_aput_neq; neq_const|].
+  split; [intros k N1 N2; rewrite (Jk k N2); apply alookup_aput_neq; exact N1|].
+  split; [|exact Jc].
+  exists (length ls). subst j'. rewrite Js. fold j. f_equal. f_equal.
+  clear - F. induction F as [|e ls He _ IH]; [reflexivity|]. cbn [length repeat]. unfold flash_err_only in He. subst e. f_equal. exact IH.
+Qed.
 End XS.
+
+(* ---- the stamp-based readings of the two C09 statements ---------------------------------------- *)
+Section XS2.
+Variable C : crypto.
+Variable cfg : config.
+
+Lemma step_expired_stamp_lemma w req O full tf fr l c r ds d :
+  q_route req = RApp full tf fr l c r true ->
+  let b := q_browser req in
+  let j := jar_get b (w_sess w) in
+  let E := mkEnv C cfg O req (jar_get b (w_cook w)) j in
+  ahas k_uid j = true -> alookup k_last_action j = Some ds -> zparse ds = Some d ->
+  d + c_expire_after cfg <= o_now O ->
+  bmem k_uid (c_whitelist cfg) = false ->
+  (r = false \/ alookup k_rm (jar_get b (w_cook w)) = None) ->
+  let w' := fst (step C cfg w (AReq req) O) in
+  let o := snd (step C cfg w (AReq req) O) in
+  let W := bsplit ","%byte (bjoin ","%byte (c_whitelist cfg)) in
+  let j' := jar_get b (w_sess w') in
+  w_st w' = w_st w /\ ob_err o = false /\ ob_panic o = false /\
+  (ob_resp o = Some (refusal_response E false fr) \/
+   (ob_resp o = None /\ fr = RespRedirect /\ c_api cfg = true /\ exists n ek, fault_at n (o_faults O) = Some ek)) /\
+  (ob_resp o <> None ->
+     j' = apply_events j ([DelAll (bjoin ","%byte (c_whitelist cfg)); Del k_uid; Del k_last_action] ++ refusal_sev E fr) /\
+     (forall k, ahas k j' = true -> (bmem k W = true /\ k <> k_uid /\ k <> k_last_action) \/ k = k_flash_err) /\
+     (forall k, bmem k W = true -> k <> k_uid -> k <> k_last_action -> k <> k_flash_err ->
+        alookup k j' = alookup k j) /\
+     alookup k_uid j' = None /\ alookup k_last_action j' = None /\
+     jar_get b (w_cook w') = jar_get b (w_cook w)) /\
+  (ob_resp o = None -> w_sess w' = w_sess w /\ w_cook w' = w_cook w).
+Proof.
+  intros R b j E Hu Hl Hp Hle Hwl Hr.
+  apply (step_expired_lemma C cfg w req O full tf fr l c r R Hu); [|exact Hwl|exact Hr].
+  fold b. fold j. rewrite (stamp_expired_stamp cfg (o_now O) j ds d Hl Hp). apply Z.leb_le. exact Hle.
+Qed.
+
+Lemma step_fresh_stamp_lemma w req O full tf fr l c r ds d :
+  q_route req = RApp full tf fr l c r true ->
+  let b := q_browser req in
+  let j := jar_get b (w_sess w) in
+  bempty (aget k_uid j) = false -> alookup k_last_action j = Some ds -> zparse ds = Some d ->
+  o_now O < d + c_expire_after cfg ->
+  let w' := fst (step C cfg w (AReq req) O) in
+  let o := snd (step C cfg w (AReq req) O) in
+  let j' := jar_get b (w_sess w') in
+  (ob_resp o <> None ->
+     alookup k_last_action j' = Some (zdec (o_now O)) /\
+     alookup k_uid j' = alookup k_uid j /\
+     (forall k, k <> k_last_action -> k <> k_flash_err -> alookup k j' = alookup k j) /\
+     (exists n, j' = apply_events j (Put k_last_action (zdec (o_now O)) :: repeat (Put k_flash_err v_flash) n)) /\
+     jar_get b (w_cook w') = jar_get b (w_cook w)) /\
+  (ob_resp o = None -> w_sess w' = w_sess w /\ w_cook w' = w_cook w).
+Proof.
+  intros R b j Hb Hl Hp Hlt.
+  apply (step_fresh_lemma C cfg w req O full tf fr l c r R Hb).
+  fold b. fold j. rewrite (stamp_expired_stamp cfg (o_now O) j ds d Hl Hp). apply Z.leb_gt. exact Hlt.
+Qed.
+
+(* ---- C10: the wrong method, and the request after a logout ------------------------------------- *)
+Lemma step_logout_wrong_method_lemma w req O :
+  q_route req = RLogout -> meth_eqb (q_meth req) (c_logout_method cfg) = false ->
+  let w' := fst (step C cfg w (AReq req) O) in
+  let o := snd (step C cfg w (AReq req) O) in
+  w_st w' = w_st w /\
+  (forall b', jar_get b' (w_sess w') = jar_get b' (w_sess w) /\ jar_get b' (w_cook w') = jar_get b' (w_cook w)) /\
+  (ob_resp o = Some (RespStatus 404) \/ ob_resp o = Some (RespStatus 405)).
+Proof.
+  intros R Hm w' o.
+  set (b := q_browser req).
+  set (E := mkEnv C cfg O req (jar_get b (w_cook w)) (jar_get b (w_sess w))).
+  set (h0 := init_hst (w_st w) O).
+  assert (Es : exists st, (st = 404 \/ st = 405) /\
+                 serve E h0 = (Ok tt, h0 <| h_out := Some (mkWritten (RespStatus st) [] []) |>)).
+  { unfold serve, route_table. cbn [e_req e_cfg E]. rewrite R. unfold when, on_method. cbn [e_req e_cfg E]. rewrite Hm.
+    destruct (q_meth req); [exists 404|exists 404|exists 404|exists 405];
+      (split; [auto|]); destruct (has_mod cfg MLogout); reflexivity. }
+  destruct Es as (st & Hst & Es).
+  destruct (step_shape C cfg w req O _ _ Es) as (Ob & St & Jr). fold b in Jr. fold w' in St, Jr. fold o in Ob.
+  cbn [h_out set] in Jr. cbn [w_sev w_cev] in Jr. destruct Jr as (Js & Jc).
+  split; [exact St|]. split.
+  - intros b'. destruct (bytes_dec b' b) as [->|N].
+    + rewrite Js, Jc. split; reflexivity.
+    + apply step_other_browsers_lemma. exact N.
+  - rewrite Ob. unfold obs_of. cbn [ob_resp h_out set option_map w_resp].
+    destruct Hst as [-> | ->]; auto.
+Qed.
+
+(* logout, then any request of the same browser to an application route: refused *)
+Lemma step_logout_then_app_lemma w req O req2 O2 full tf fr l c r e :
+  q_route req = RLogout -> q_meth req = c_logout_method cfg -> q_meth req <> PUT ->
+  has_mod cfg MLogout = true ->
+  ob_resp (snd (step C cfg w (AReq req) O)) <> None ->
+  q_browser req2 = q_browser req -> q_route req2 = RApp full tf fr l c r e ->
+  let b := q_browser req in
+  let w1 := fst (step C cfg w (AReq req) O) in
+  let w2 := fst (step C cfg w1 (AReq req2) O2) in
+  let o2 := snd (step C cfg w1 (AReq req2) O2) in
+  w_st w2 = w_st w /\ ob_err o2 = false /\ ob_panic o2 = false /\
+  (ob_resp o2 = Some (refusal_response (mkEnv C cfg O2 req2 [] []) false fr) \/
+   (ob_resp o2 = None /\ fr = RespRedirect /\ c_api cfg = true /\ exists n ek, fault_at n (o_faults O2) = Some ek)) /\
+  alookup k_uid (jar_get b (w_sess w2)) = None /\
+  alookup k_rm (jar_get b (w_cook w2)) = None.
+Proof.
+  intros R M NP HM Hs Hb2 R2 b w1 w2 o2.
+  destruct (step_logout_lemma C cfg w req O R M NP HM) as (St1 & Hw & _). fold b in Hw. fold w1 in St1, Hw.
+  destruct (Hw Hs) as (_ & _ & U1 & _ & _ & _ & K1 & _).
+  assert (U1' : alookup k_uid (jar_get (q_browser req2) (w_sess w1)) = None) by (rewrite Hb2; exact U1).
+  assert (K1' : alookup k_rm (jar_get (q_browser req2) (w_cook w1)) = None) by (rewrite Hb2; exact K1).
+  destruct (step_app_unauthenticated_lemma C cfg w1 req2 O2 full tf fr l c r e R2 U1' (or_intror K1'))
+    as (St2 & A1 & A2 & A3 & _ & A5 & A6).
+  fold w2 in St2, A5, A6. fold o2 in A1, A2, A3. rewrite Hb2 in A5, A6. fold b in A5, A6.
+  split; [congruence|]. split; [exact A1|]. split; [exact A2|]. split; [exact A3|].
+  split; [exact A5|]. rewrite A6. exact K1.
+Qed.
+End XS2.
+
+(* how the reference store reads the whitelist it is handed: the same list, provided it is
+   not empty and no key contains a comma; an empty whitelist reads as "the empty key" *)
+Lemma store_whitelist_reading (wl : list bytes) :
+  wl <> [] -> Forall (fun k => bmem_byte ","%byte k = false) wl -> bsplit ","%byte (bjoin ","%byte wl) = wl.
+Proof. intros N F. apply bsplit_bjoin; assumption. Qed.
+Lemma store_whitelist_reading_empty : bsplit ","%byte (bjoin ","%byte []) = [[]].
+Proof. reflexivity. Qed.
+
+(* ---- the module routes behind the gate: the wrapped handler, as a function of the gate ---------- *)
+Lemma behind_runs_lemma E full inner h u :
+  reqs_ok E full false = true -> h_cuser h = None -> h_cpid h = None ->
+  bempty (aget k_uid (e_sess E)) = false -> ulookup (aget k_uid (e_sess E)) (s_users (h_st h)) = Some u ->
+  fault_at (h_ncalls h) (o_faults (e_O E)) = None ->
+  behind E full inner h = inner (after_load E h <| h_cuser := Some u |>).
+Proof.
+  intros Rq Hc Hp Hb Hu Hf. apply behind_admitted. apply gate_admits_if_lemma; assumption.
+Qed.
+
+Lemma behind_refusal_lemma E full h :
+  h_cuser h = None -> h_cpid h = None -> h_out h = None ->
+  fault_at (h_ncalls h) (o_faults (e_O E)) = None ->
+  gate_refuses E full false h ->
+  exists h', (forall inner, behind E full inner h = (Ok tt, h')) /\
+    h_st h' = h_st h /\ h_cuser h' = None /\ h_cev h' = h_cev h /\
+    ((h_sev h' = h_sev h ++ refusal_sev E (c_unauthed (e_cfg E)) /\
+      h_out h' = Some (mkWritten (refusal_response E true (c_unauthed (e_cfg E)))
+                                 (h_sev h ++ refusal_sev E (c_unauthed (e_cfg E))) (h_cev h))) \/
+     (c_unauthed (e_cfg E) = RespRedirect /\ c_api (e_cfg E) = true /\ h_sev h' = h_sev h /\ h_out h' = None /\
+      exists n ek, fault_at n (o_faults (e_O E)) = Some ek)).
+Proof.
+  intros Hc Hp Ho Hf Hr.
+  destruct (gate_refusal_lemma E true full false (c_unauthed (e_cfg E)) h Hc Hp Ho Hf Hr) as (h' & A & B).
+  exists h'. split; [|exact B]. intros inner. apply behind_refused. exact A.
+Qed.
+
+(* ---- the hypothesis "a response was written" of the logout statement cannot be dropped: in API
+   mode with the silent error handler, a failed renderer call means nothing is written, so the
+   recorded deletions never reach the browser ---------------------------------------------------- *)
+Definition wit_crypto : crypto := mkCrypto (fun x => x) (fun x => x) (fun _ _ => true).
+Definition wit_cfg : config :=
+  mkConfig [MLogout] false false false false false false 3 300 300 3600 3600 [] true false false DELETE GET false
+           [] RespNotFound [] [] false.
+Definition wit_world : world := mkWorld (mkStorage [] []) [(bs "b", [(k_uid, bs "a")])] [(bs "b", [(k_rm, bs "t")])].
+Definition wit_req : request := mkRequest (bs "b") DELETE RLogout (bs "/logout") [] [] [] false.
+Definition wit_oracle : oracle := mkOracle 0 [] [] [(0%nat, EGeneric); (1%nat, EGeneric)] (mkPA false false [] [] [] [] 0).
+
+Lemma logout_unwritten_witness :
+  q_route wit_req = RLogout /\ q_meth wit_req = c_logout_method wit_cfg /\ has_mod wit_cfg MLogout = true /\
+  let w' := fst (step wit_crypto wit_cfg wit_world (AReq wit_req) wit_oracle) in
+  ob_resp (snd (step wit_crypto wit_cfg wit_world (AReq wit_req) wit_oracle)) = None /\
+  alookup k_uid (jar_get (bs "b") (w_sess w')) = Some (bs "a") /\
+  alookup k_rm (jar_get (bs "b") (w_cook w')) = Some (bs "t").
+Proof. vm_compute. repeat split; reflexivity. Qed.
